@@ -338,12 +338,47 @@ def _mode_t_waiters(ctx):
     ctx.cover(("mode-T-waiters", nwait, tuple(f is None for f in filts)))
 
 
+def _clock_step_observation(ctx):
+    """Observation only (rule 7): the wall clock is stepped while a caller sits in wait().
+    EmcyConsumer.wait() takes its deadline from time.time(); Condition.wait() counts on the
+    monotonic clock.  No statement speaks about clock steps, so nothing here is judged except
+    that the log still mirrors the history."""
+    w = W(ctx)
+    cons = w.r.emcy
+    step = (10 * SEC, -10 * SEC, 3600 * SEC, -3600 * SEC)[ctx.choice(4, "step")]
+    t_step = (100 + ctx.choice(400, "tstep")) * MS
+    t_frame = t_step + (50 + ctx.choice(400, "tframe")) * MS      # always before the 1 s time-out
+
+    def do_step():
+        ctx.wall_offset += step
+        ctx.fault("wall-clock-step")
+    ctx.after(t_step, do_step)
+    ctx.after(t_frame, lambda: w.raw.send(0x80 + w.nid, bytes([0x10, 0x81, 1, 0, 0, 0, 0, 0])))
+    t0 = ctx.now
+    res, exc = call(cons.wait, None, 1.0)
+    took = (ctx.now - t0) / SEC
+    ctx.run_for(50 * MS)
+    if exc is not None:
+        ctx.violation("C16/wait-raised/%s@%s" % (type(exc).__name__, site(exc)), "wait() with a wall-clock step of %+d s raised %r" % (step // SEC, exc))
+    if [(e.code, e.register) for e in cons.log] != [(0x8110, 1)]:
+        ctx.violation("C16/log/fields", "after a wall-clock step the log is %r" % ([(e.code, e.register) for e in cons.log],))
+    if res is None:
+        ctx.observe("wall clock stepped %s during wait(): an entry that arrived well inside the 1 s time-out was not handed over (not judged)" % (
+            "forward" if step > 0 else "back"))
+    else:
+        ctx.observe("wall clock stepped %s during wait(): entry handed over as without the step" % ("forward" if step > 0 else "back"))
+    ctx.cover(("clock-step", step > 0, res is not None))
+
+
 def scenario(ctx):
     mode = ctx.choice(4, "mode")
     blk = ctx.choice(16, "blk")
     if mode == 3:
-        if ctx.choice(2, "tkind"):
+        k = ctx.choice(5, "tkind")
+        if k in (1, 2):
             return _mode_t_waiters(ctx)
+        if k == 3:
+            return _clock_step_observation(ctx)
         return _mode_t_observation(ctx)
     if mode == 1:
         # description table: 4096 codes per run
